@@ -21,7 +21,7 @@ for key in keys:
     except EngineError as e:
         print('UNBOUND', key, str(e)[:100])
         continue
-    can = [o for o in obs if '/canary.exit' in o.name]
+    can = [o for o in obs if '/canary.' in o.name]
     for o in can:
         o.lemmas = run.lemmas_for(c, o.name)
         o.unfold = run.unfold_for(c, o.name)
@@ -29,7 +29,11 @@ for key in keys:
 print(len(allobs), 'canaries')
 t = time.time()
 res = solve.discharge(allobs, timeout_s=20)
-bad = [r for r in res if r.status == 'proved']
+import re
+base = lambda n: re.sub(r'#\d+$', '', n)
+alive = {base(r.ob.name) for r in res if r.status != 'proved'}
+bad = [r for r in res if r.status == 'proved' and base(r.ob.name) not in alive]
+print('infeasible duplicates (fine):', sum(1 for r in res if r.status == 'proved') - len(bad))
 for r in bad:
     print('VACUOUS-EXIT', r.ob.name, r.backend, round(r.seconds, 2))
 print('done', len(bad), 'proved canaries of', len(res), round(time.time() - t, 1), 's')
